@@ -68,6 +68,10 @@ func caseOf(sp *core.Space, st core.State, opt string) treeCase {
 // violation's signature names the smallest tree that shows it.
 func minimise(atoms []*core.Atom, check func([]*core.Atom) (string, string)) ([]*core.Atom, string, string) {
 	sig, detail := check(atoms)
+	if sig == "" {
+		// the outcome is not stable (the implementation iterates Go maps): keep the case as observed
+		return atoms, "unstable:", "violation observed once but not on re-execution (map-order dependent outcome)"
+	}
 	clause := clauseOf(sig)
 	cur := atoms
 	for changed := true; changed && len(cur) > 1; {
@@ -143,6 +147,9 @@ func shapeName(a *core.Atom) string {
 	}
 	if a.Val != core.NoValue {
 		s += "=" + valueKind(a.Val)
+	}
+	if a.Kind == "emptylist" {
+		s += "={}"
 	}
 	return s
 }
